@@ -135,6 +135,10 @@ impl<R: DynamicChannelRegion> RegionHandler for DynamicChannelPlan<R> {
                     // unused channels are set to 0
                     if value == 0 {
                         self.channels[index] = None;
+                    } else if !(self.frequency_valid)(value) {
+                        // A frequency outside the band is not usable: ignore the entry, as
+                        // NewChannelReq does.
+                        continue;
                     } else {
                         self.channels[index] = Some(Channel::new(value, DR::_0, DR::_5));
                     }
